@@ -50,6 +50,13 @@ Definition enumerate {A} (l : list A) : list (Z * A) := combine (map Z.of_nat (s
 (* range(n): 0, 1, ..., n-1 (empty for n <= 0) *)
 Definition pyrange (n : Z) : list Z := map Z.of_nat (seq 0 (Z.to_nat n)).
 
+(* a call of a method that may mutate self, from a method that mutates self: the callee's final self becomes ours;
+   an exception in the callee leaves with the callee's self.  callMv uses the returned value (None cannot be used) *)
+Definition callM {S V W O} (c : fres W * O) (k : option W -> O -> outcome S (fres V * O)) : outcome S (fres V * O) :=
+  match c with (FRet w, o) => k (Some w) o | (FNone, o) => k None o | (FRaised e, o) => Ret (FRaised e, o) | (FNonInt, o) => Ret (FNonInt, o) end.
+Definition callMv {S V W O} (c : fres W * O) (k : W -> O -> outcome S (fres V * O)) : outcome S (fres V * O) :=
+  match c with (FRet w, o) => k w o | (FNone, o) => Ret (FRaised EType, o) | (FRaised e, o) => Ret (FRaised e, o) | (FNonInt, o) => Ret (FNonInt, o) end.
+
 (* l[j] with Python's negative indices; None = IndexError *)
 Definition py_index (len : nat) (j : Z) : option nat :=
   let k := if j <? 0 then j + Z.of_nat len else j in
